@@ -10,7 +10,9 @@ selected by a `Variant`, so that the behaviour as pinned stays available for the
 * `d3`  — the condition evaluator (`CondPinned`: short-circuit that leaves tokens unconsumed);
 * `d4`  — the block state machine (`readStepPinned`: "is the current block non-empty?" bookkeeping);
 * `d20` — the quote pair stripped from the whole argument list (`^"(.*)"$` → `^"([^"]*)"$`);
-* `d31` — blanks after the `{` of `} else {` / `} else if (…) {` (missing `\s*` before `$`).
+* `d31` — blanks after the `{` of `} else {` / `} else if (…) {` (missing `\s*` before `$`);
+* `d32` — the special case `,\s*"(\s)"` of the argument tokeniser (`commaBlank`; removed by the repair);
+* `d33` — quoted strings in the argument tokeniser: `"[^"]+"` (pinned) or `"[^"]*"` (`mapQuoted star`).
 
 Characters: `\n`10 space 32 `"`34 `#`35 `$`36 `(`40 `)`41 `,`44 `-`45 `:`58 `;`59 `=`61 `\`92 `{`123 `}`125. -/
 namespace EupsModel.TableParse
@@ -21,10 +23,12 @@ structure Variant where
   d4 : Bool
   d20 : Bool
   d31 : Bool
+  d32 : Bool
+  d33 : Bool
   deriving DecidableEq, Repr
 
-def repaired : Variant := ⟨true, true, true, true⟩
-def pinned : Variant := ⟨false, false, false, false⟩
+def repaired : Variant := ⟨true, true, true, true, true, true⟩
+def pinned : Variant := ⟨false, false, false, false, false, false⟩
 
 /-! ## small string functions -/
 
@@ -262,9 +266,9 @@ def cmdLine (line : Str) : Option (Str × Str) :=
 def stripOuter (strict : Bool) (s : Str) : Str :=
   match s with
   | 34 :: r =>
-    match r.reverse with
-    | 34 :: m => if strict && m.contains 34 then s else m.reverse
-    | _ => s
+    if r.getLast? == some 34 then
+      if strict && r.dropLast.contains 34 then s else r.dropLast
+    else s
   | _ => s
 
 /-- `re.sub(r',\s*"(\s)"', r'\1"\x01"', s)`; `skip` = characters of a match still to be dropped -/
@@ -280,18 +284,18 @@ def commaBlank : Nat → Str → Str
       | _ => c :: commaBlank 0 cs
     else c :: commaBlank 0 cs
 
-/-- `re.sub(r'("[^"]+")', lambda m: m.group(0) with f applied to every character, s)`.  State `some run`: an
-opening quote (not yet emitted) followed by the quote-free characters `run`. -/
-def mapQuoted (f : Nat → Nat) : Option Str → Str → Str
+/-- `re.sub(r'("[^"]*")', lambda m: m.group(0) with f applied to every character, s)`; with `star = false` the
+pattern is `"[^"]+"` as pinned (an empty pair of quotes is not a match: its second quote may open one).
+State `some run`: an opening quote (not yet emitted) followed by the quote-free characters `run`. -/
+def mapQuoted (star : Bool) (f : Nat → Nat) : Option Str → Str → Str
   | none, [] => []
   | some run, [] => 34 :: run
-  | none, c :: cs => if c == 34 then mapQuoted f (some []) cs else c :: mapQuoted f none cs
+  | none, c :: cs => if c == 34 then mapQuoted star f (some []) cs else c :: mapQuoted star f none cs
   | some run, c :: cs =>
     if c == 34 then
-      match run with
-      | [] => 34 :: mapQuoted f (some []) cs
-      | _ :: _ => 34 :: run.map f ++ 34 :: mapQuoted f none cs
-    else mapQuoted f (some (run ++ [c])) cs
+      if star || !run.isEmpty then 34 :: run.map f ++ 34 :: mapQuoted star f none cs
+      else 34 :: mapQuoted star f (some []) cs
+    else mapQuoted star f (some (run ++ [c])) cs
 
 /-- `[s for s in re.split("[, ]", args) if s]` -/
 def splitArgs : Str → Str → List Str
@@ -303,13 +307,13 @@ def splitArgs : Str → Str → List Str
 /-- `\x01`, `\x02`, `\x03` back to blank, quote, comma -/
 def unprotect (c : Nat) : Nat := if c == 1 then 32 else if c == 2 then 34 else if c == 3 then 44 else c
 
-/-- the argument tokeniser of `_read` (table.py l.330-352) -/
+/-- the argument tokeniser of `_read` -/
 def parseArgs (v : Variant) (text : Str) : List Str :=
   let a := stripOuter v.d20 text
   let a := replaceAll [92, 34] [2] a
-  let a := commaBlank 0 a
-  let a := mapQuoted (fun c => if c == 32 then 1 else c) none a
-  let a := mapQuoted (fun c => if c == 44 then 3 else c) none a
+  let a := if v.d32 then a else commaBlank 0 a
+  let a := mapQuoted v.d33 (fun c => if c == 32 then 1 else c) none a
+  let a := mapQuoted v.d33 (fun c => if c == 44 then 3 else c) none a
   (splitArgs [] a).map fun s => (stripOuter false s).map unprotect
 
 inductive Cmd
